@@ -14,6 +14,10 @@ Two monitors, both fed from sandboxed workers (observation there, verdict here):
     each such vector has a control twin with default attributes.  Where the statement is silent (do directory entries count as entries? do the compressed
     bytes of empty entries count in the total ratio? - they do, see ref_decide) every reading is admissible and nothing is demanded.
 
+    Sequences: the same three entry points are also driven in sequences over ONE BytesIO object (and one ZipFile object per content): the
+    limits change between calls, the buffer is refilled with another container; every decision must be that of the current bytes under the
+    current limits, as on a fresh buffer (control twin).  The extractors get a recycled buffer too (fixture first, then a bomb-shaped variant).
+
 (2) zip-order monitor (vlib/mon/ziporder.py).  The 10 ZIP-container entry points run on repository fixtures and
     on bomb-shaped variants of them (forged central-directory sizes, 50 001 entries, really-high-ratio members)
     while every ZipFile construction / member access / validate_zipfile call is logged; the offline checker
@@ -317,6 +321,8 @@ def work(case):
         return _work_lattice(case)
     if case["kind"] == "garbage":
         return _work_garbage(case)
+    if case["kind"] == "reuse":
+        return _work_reuse(case)
     return _work_extract(case)
 
 
@@ -398,6 +404,47 @@ def _work_lattice(case):
         p1 = bio.tell()
         opened = _outcome(lambda: zb.open_zipfile(io.BytesIO(data), limits=limits, source="c11"))
         res.append([stub, real, opened, p0, p1, twin, atwin, alabel])
+    return {"res": res}
+
+
+def _limits(zb, lim):
+    E, T, S, RT, RE = lim
+    return zb.ZipBombLimits(max_entries=E, max_total_uncompressed_bytes=T, max_single_uncompressed_bytes=S,
+                            max_total_compression_ratio=RT, max_entry_compression_ratio=RE)
+
+
+def _work_reuse(case):
+    """A sequence of guard calls on ONE BytesIO object (and one ZipFile object per content): between steps the limits change and / or the
+    buffer is refilled with another container.  Every step is also decided on a fresh buffer (control twin)."""
+    from vlib.gen import c11_zipforge as F
+    zb = _W["zb"]
+    buf = io.BytesIO()
+    cur, zf = None, None
+    res = []
+    for st in case["steps"]:
+        ents, i = [], 0
+        for f, c, d, k in st["runs"]:
+            for j in range(k):
+                ents.append(F.Entry(f"m{i + j}/" if d else f"m{i + j}", cd_file_size=f, cd_compress_size=c))
+            i += k
+        data = F.raw_zip(ents)
+        if st["runs"] != cur:                       # the caller recycles its buffer for the next container
+            buf.seek(0)
+            buf.truncate()
+            buf.write(data)
+            cur, zf = st["runs"], None
+        limits = _limits(zb, st["lim"])
+        if st["fn"] == "open_zipfile":
+            got = _outcome(lambda: zb.open_zipfile(buf, limits=limits, source="c11"))
+        elif st["fn"] == "validate_zip_bytesio":
+            got = _outcome(lambda: zb.validate_zip_bytesio(buf, limits=limits, source="c11"))
+        else:                                       # validate_zipfile on a ZipFile object that lives as long as the content
+            if zf is None:
+                buf.seek(0)
+                zf = zipfile.ZipFile(buf, "r")
+            got = _outcome(lambda: zb.validate_zipfile(zf, limits=limits, source="c11"))
+        twin = _outcome(lambda: zb.open_zipfile(io.BytesIO(data), limits=limits, source="c11"))
+        res.append([got, twin])
     return {"res": res}
 
 
@@ -492,6 +539,22 @@ def _work_extract(case):
     h0 = dict(mon.hits)
     bio = io.BytesIO(data)
     arm_cpu(60)
+    reused = None
+    if case.get("reuse"):
+        # the caller recycles ONE BytesIO: first the unmodified fixture goes through the extractor, then the same object is refilled with the variant
+        bio = io.BytesIO((core.FIXTURES / case["fixture"]).read_bytes())
+        try:
+            r0 = fn(bio) if fname.startswith("is_") else list(fn(bio, "c11." + case["ext"]))
+            reused = "first-pass-ok"
+        except Exception as e:  # noqa: BLE001
+            reused = "first-pass-" + type(e).__name__
+        if bio.closed:
+            bio, reused = io.BytesIO(data), "buffer-closed-by-extractor"
+        else:
+            bio.seek(0)
+            bio.truncate()
+            bio.write(data)
+            bio.seek(0)
     mon.begin()
     try:
         r = fn(bio) if fname.startswith("is_") else list(fn(bio, "c11." + case["ext"]))
@@ -505,7 +568,7 @@ def _work_extract(case):
         events = mon.end()
     hits = {k: v - h0.get(k, 0) for k, v in mon.hits.items()}
     import hashlib
-    return {"outcome": outcome, "detail": detail, "events": events, "vector": vector, "lim": lim, "hits": hits,
+    return {"outcome": outcome, "detail": detail, "events": events, "vector": vector, "lim": lim, "hits": hits, "reused": reused,
             "rebound": _W["rebound"], "sha": hashlib.sha1(data).hexdigest(), "size": len(data)}
 
 
@@ -642,6 +705,9 @@ def eval_extract(run, case, obs, per):
     ref = ref_decide(entries, lim)
     benign = v["name"] in ("plain", "pad") and not v.get("attr")
     feature = "clean" if benign else ("bomb-shape-" if ref == {True} else "near-limit-") + v["name"] + ("+" + attr_feature(v["attr"]) if v.get("attr") else "")
+    if case.get("reuse") and obs.get("reused") == "first-pass-ok":
+        feature = ("clean" if benign else feature) + "+buffer-object-reused-after-a-legitimate-document"
+        st["reused_buffer_runs"] = st.get("reused_buffer_runs", 0) + 1
     shape = "clean" if benign else "bomb-shaped-input" if ref == {True} else "near-limit-input"
     events = obs["events"]
     for sym, why, idx in ziporder.check(events):
@@ -682,11 +748,73 @@ def eval_extract(run, case, obs, per):
     run.extras.setdefault("rebound_bindings", obs["rebound"])
     run.extras.setdefault("configured_default_limits", lim)
     m = margins(entries, lim)
-    sig = ("extract", ext, v["name"], v.get("attr", "default"), v.get("d", 0), bool(v.get("front")), out if not out.startswith("exc:") else "exc",
+    sig = ("extract", ext, bool(case.get("reuse")), v["name"], v.get("attr", "default"), v.get("d", 0), bool(v.get("front")), out if not out.startswith("exc:") else "exc",
            s["zips_seen"], s["zips_read"] > 0, tuple(sorted(ref)))
     run.case(sig, sample={"extractor": ext, "fixture": case.get("fixture"), "variant": v, "spec_rejects": sorted(ref), "outcome": out,
                           "zip_objects": s, "margins": m} if (v["name"] in ("eratio", "plain") and st["runs"] < 3 and ext in ("xlsx", "odt")) else None)
     run.count("extract_spec_reject" if ref == {True} else "extract_spec_accept" if ref == {False} else "extract_spec_either")
+
+
+def reuse_cases(run):
+    """Sequences over one buffer object: same container under lenient then strict limits (and back); accepted container, then the buffer refilled
+    with a rejected one (and back); random walks over both, through each of the three guard entry points."""
+    rng = run.rng
+    cases = []
+    pools = []
+    for lim in SETTINGS[1:7] + SMALL_WORLDS[:4]:
+        acc, rej = [], []
+        for v in constructive(lim, rng):
+            if sum(r[3] for r in v) > 40:
+                continue
+            ref = ref_decide(expand(v), lim)
+            (acc if ref == {False} else rej if ref == {True} else []).append(v)
+        lenient = (lim[0] * 10, lim[1] * 16, lim[2] * 16, lim[3] * 8, lim[4] * 8)
+        rej_len = [v for v in rej if ref_decide(expand(v), lenient) == {False}]
+        if acc and rej:
+            pools.append((list(lim), list(lenient), acc, rej, rej_len))
+    fns = ("open_zipfile", "validate_zip_bytesio", "validate_zipfile")
+    for n in range(run.n(240, 2400)):
+        lim, lenient, acc, rej, rej_len = pools[n % len(pools)]
+        shape = ("lenient-then-strict", "accepted-then-refilled", "walk")[n % 3]
+        fn = fns[(n // 3) % 3] if n % 2 else "open_zipfile"
+        steps = []
+        if shape == "lenient-then-strict" and rej_len:
+            v = rng.choice(rej_len)
+            steps = [{"lim": lenient, "runs": v, "fn": fn}, {"lim": lim, "runs": v, "fn": fn}, {"lim": lenient, "runs": v, "fn": rng.choice(fns)}, {"lim": lim, "runs": v, "fn": rng.choice(fns)}]
+        elif shape == "accepted-then-refilled":
+            a, b = rng.choice(acc), rng.choice(rej)
+            steps = [{"lim": lim, "runs": a, "fn": fn}, {"lim": lim, "runs": b, "fn": fn}, {"lim": lim, "runs": a, "fn": rng.choice(fns)}, {"lim": lim, "runs": rng.choice(rej), "fn": rng.choice(fns)}]
+        else:
+            for _ in range(rng.randint(3, 6)):
+                steps.append({"lim": rng.choice((lim, lenient)), "runs": rng.choice(acc + rej), "fn": rng.choice(fns)})
+        cases.append({"kind": "reuse", "id": n, "shape": shape, "steps": steps})
+    return cases
+
+
+def eval_reuse(run, case, obs):
+    if "res" not in obs:
+        run.inconclusive_cases += 1
+        run.count("reuse_cases_lost")
+        return
+    accepted_before = False
+    for i, (st, (got, twin)) in enumerate(zip(case["steps"], obs["res"])):
+        entries = expand(st["runs"])
+        ref = ref_decide(entries, st["lim"])
+        run.count("decisions_on_reused_buffer")
+        if ref == {True} and accepted_before:
+            run.count("spec_rejects_on_buffer_accepted_before")
+        want = "reject" if ref == {True} else "accept" if ref == {False} else None
+        if want and got != want:
+            twin_ok = twin == want
+            feat = ("buffer-object-reused-after-an-accepted-open" if accepted_before else "buffer-object-reused") if twin_ok else "fresh-buffer-twin-wrong-too"
+            sym = ("accepted" if got == "accept" else "rejected" if got == "reject" else "raised-" + got[4:]) + ("-instead-of-zip-bomb-error" if want == "reject" else "-within-limits")
+            run.violation(f"C11:{st['fn']}[reused-buffer]:{feat}:{sym}",
+                          f"step {i + 1} of {len(case['steps'])} on one BytesIO ({case['shape']}): limits={st['lim']} entries(f,c,dir,count)={st['runs'][:8]}: spec says {want}, got {got}; "
+                          f"the same call on a fresh buffer -> {twin}; earlier steps: {[(s['fn'], s['lim'][:3], o[0]) for s, o in zip(case['steps'][:i], obs['res'][:i])]}",
+                          {"kind": "reuse", "shape": case["shape"], "steps": case["steps"][:i + 1]})
+        if got == "accept":
+            accepted_before = True
+    run.case(("reuse", case["shape"], tuple(s["fn"] for s in case["steps"]), tuple(o[0] for o in obs["res"])))
 
 
 def lattice_cases(run):
@@ -731,6 +859,8 @@ VARIANTS_QUICK = [
 ]
 VARIANTS_ATTR = [{"name": nm, "d": 1, "attr": a[0]} for nm in ("single", "total", "eratio", "tratio", "zero") for a in FILE_ATTRS[1:]] + \
                 [{"name": nm, "attr": a[0]} for nm in ("real-entry-ratio", "real-total-ratio", "pad") for a in FILE_ATTRS[1:]]
+# the same BytesIO object first carries the unmodified fixture through the extractor, then this variant
+VARIANTS_REUSE = [{"name": "single", "d": 1}, {"name": "zero", "front": 1}, {"name": "real-entry-ratio"}, {"name": "pad"}]
 VARIANTS_ENTRIES = [{"name": "entries-all", "d": 0}, {"name": "entries-files", "d": 1}, {"name": "entries-all", "d": 1, "front": 1}]
 
 
@@ -764,6 +894,9 @@ def extract_cases(run):
                 vs += [dict(v, front=rng.randrange(2)) for v in rng.sample(VARIANTS_ATTR, 16)]      # clause x attribute word: a sample per fixture, the cross product over all fixtures
             for v in vs:
                 cases.append({"kind": "extract", "ext": ext, "fixture": fxt, "variant": v})
+        for fxt in chosen[:1] if run.quick else chosen:
+            for v in VARIANTS_REUSE:
+                cases.append({"kind": "extract", "ext": ext, "fixture": fxt, "variant": v, "reuse": 1})
         for fxt in heavy:
             for v in VARIANTS_ENTRIES if not run.quick else VARIANTS_ENTRIES[:2]:
                 cases.append({"kind": "extract", "ext": ext, "fixture": fxt, "variant": v})
@@ -791,6 +924,8 @@ def main(run):
         eval_lattice(run, case, obs, cells)
     flush_pending(run)
     n_lat = run.evaluations
+    for case, obs in pool.run_cases("checks.c11:work", reuse_cases(run), deadline_s=120):
+        eval_reuse(run, case, obs)
     for case, obs in pool.run_cases("checks.c11:work", [{"kind": "garbage", "id": 0}], workers=1, deadline_s=60):
         for ln, out, p0, p1 in obs.get("res", []):
             run.count("stream_position_checks")
@@ -814,7 +949,8 @@ def main(run):
     run.require("pairwise_boundary_cells_reached", len(pair_cells), 80)
     run.require("single_boundary_cells_reached", len({c for c in cells if len(c) == 2}), 15)
     run.require("decisions_compared", run.counters.get("decisions_compared", 0), run.n(20000, 150000))
-    for k, lo in (("spec_rejects_only_by_entry_ratio_excess_below_0.05", run.n(15, 100)), ("spec_rejects_only_by_total_ratio_excess_below_0.05", run.n(15, 100)),
+    for k, lo in (("decisions_on_reused_buffer", run.n(800, 8000)), ("spec_rejects_on_buffer_accepted_before", run.n(150, 1500)),
+                  ("spec_rejects_only_by_entry_ratio_excess_below_0.05", run.n(15, 100)), ("spec_rejects_only_by_total_ratio_excess_below_0.05", run.n(15, 100)),
                   ("decisions_compared_with_nondefault_file_attributes", run.n(8000, 60000)), ("spec_rejects_although_file_entries_carry_a_directory_attribute", run.n(1500, 10000))):
         run.require(k, run.counters.get(k, 0), lo)
     for k in ("accept_from_zero", "accept_from_nonzero", "reject_from_zero", "reject_from_nonzero", "error_from_nonzero"):
@@ -823,13 +959,14 @@ def main(run):
         st = per.get(ext, {})
         run.require(f"{ext}:read_after_validation", st.get("read_after_validation", 0), 1)
         run.require(f"{ext}:bombs_rejected", st.get("bombs_rejected", 0), 1)
+        run.require(f"{ext}:reused_buffer_runs", st.get("reused_buffer_runs", 0), 2)
         run.require(f"{ext}:bombs_rejected_although_member_carries_directory_attribute", st.get("bombs_rejected_although_member_carries_directory_attribute", 0), 1)
     for h in ("ZipFile.__init__", "ZipFile.read", "ZipFile.open", "validate_zipfile", "validate_zip_bytesio", "open_zipfile"):
         run.require("hook_hits_" + h, run.counters.get("hook_hits_" + h, 0), 10)
     rb = run.extras.get("rebound_bindings", {})
     for fn in ("validate_zipfile", "validate_zip_bytesio", "open_zipfile"):
         run.require("bindings_wrapped_" + fn, len(rb.get(fn, [])), 1)
-    lost = run.counters.get("lattice_chunks_lost", 0) + run.counters.get("extract_cases_lost", 0)
+    lost = run.counters.get("lattice_chunks_lost", 0) + run.counters.get("extract_cases_lost", 0) + run.counters.get("reuse_cases_lost", 0)
     if lost:
         run.inconclusive(f"{lost} worker case(s) died or timed out")
 
@@ -848,6 +985,9 @@ def replay(run, doc):
             print("spec (admissible values of 'rejected'):", [sorted(ref_decide(expand(r), c["lim"])) for r in c["vectors"]])
             eval_lattice(run, c, obs, cells)
             flush_pending(run)
+        elif c["kind"] == "reuse":
+            c.setdefault("shape", "replay")
+            eval_reuse(run, c, obs)
         elif c["kind"] == "extract":
             for i, e in enumerate(obs.get("events", [])):
                 print(f"  event {i}: {e}")
